@@ -218,8 +218,14 @@ fn gen_config(rng: &mut Rng) -> Config {
         shape.push(y.len());
     }
     let lead = shape.len();
-    for _ in 0..rng.below(3) {
-        shape.push(rng.range(1, 3));
+    if rng.chance(0.15) {
+        // wide data: 64 and more values per point (anything that switches on above a size threshold — a memo of the latest
+        // single-point result, a parallel or blocked path — is only reached here)
+        shape.push(rng.range(64, 96));
+    } else {
+        for _ in 0..rng.below(3) {
+            shape.push(rng.range(1, 3));
+        }
     }
     let total: usize = shape.iter().product();
     let values: Vec<f64> = (0..total).map(|_| rng.uniform(-10.0, 10.0)).collect();
@@ -783,6 +789,27 @@ fn gen_op(rng: &mut Rng, cfg: &Config) -> Op {
     }
 }
 
+fn repeat_op(rng: &mut Rng, cfg: &Config, prev: &Op) -> Op {
+    let mut op = Op {
+        entry: prev.entry,
+        qshape: prev.qshape.clone(),
+        qx: prev.qx.clone(),
+        qy: prev.qy.clone(),
+        buf: prev.buf.clone(),
+        wrong_buf: prev.wrong_buf,
+    };
+    if matches!(prev.entry, Entry::Interp | Entry::InterpInto) {
+        op.entry = if rng.chance(0.5) {
+            Entry::Interp
+        } else {
+            Entry::InterpInto
+        };
+        op.buf = cfg.trailing().to_vec();
+        op.wrong_buf = false;
+    }
+    op
+}
+
 /// What the crate's documentation promises for the reference answer, independent of history:
 /// `None` when the answer is as promised, otherwise a description of the broken promise.
 fn sanity(cfg: &Config, op: &Op, answer: &Answer) -> Option<&'static str> {
@@ -891,7 +918,16 @@ struct Stats {
 fn run_history(idx: usize, rng: &mut Rng, stats: &mut Stats) {
     let cfg = gen_config(rng);
     let n_ops = rng.range(20, 200);
-    let ops: Vec<Op> = (0..n_ops).map(|_| gen_op(rng, &cfg)).collect();
+    let mut ops: Vec<Op> = Vec::with_capacity(n_ops);
+    for _ in 0..n_ops {
+        // every fifth operation repeats the query of the one before it (same point(s), failing or not), single-point ones through
+        // `interp` or `interp_into` at random: an answer remembered from — or a key left behind by — the previous call shows here
+        let op = match ops.last() {
+            Some(prev) if rng.chance(0.2) => repeat_op(rng, &cfg, prev),
+            _ => gen_op(rng, &cfg),
+        };
+        ops.push(op);
+    }
     let threads = [2usize, 3, 4, 8, 16][rng.below(5)];
     let storage = if cfg.shared { "shared" } else { "owned" };
     let mut failures = 0usize;
